@@ -5,7 +5,7 @@
    wcfg  = (pipelines, connectors)
            pipeline  = ((signal, name), (receivers, (processors, exporters)))   ids are nat
            connector = (id, supported (exporter signal, receiver signal) pairs)
-   wobs  = (validate_ok, (class, (detail, (created, (started, deliveries)))))
+   wobs  = (validate_ok, (class, (detail, (created, (started, (deliveries, routers))))))
            class      0 built | 1 "connector ... not used in any supported ..." | 2 "cycle detected" | 3 panic
            detail     class 1: [(side 0 exporter / 1 receiver, (signal, (0, connector id)))]
                       class 2: the reported cycle (processor / connector nodes)
@@ -13,6 +13,7 @@
            started    node keys of the components whose Start ran  (multiset)
            deliveries per receiver node: the (exporter node, trail of processor/connector nodes)
                       of every datum that arrived anywhere after one injection    (multiset)
+           routers    per connector instance: the pipeline ids its router offers       (multiset)
    wnode = (kind, (a, (b, id)))  0 Recv a=signal | 1 Proc (a,b)=pipeline | 2 Exp a=signal
                                  3 Conn a=exporter signal b=receiver signal | 4 Cap | 5 Fan *)
 From Verif Require Import Common.Base C09.Model.
@@ -21,7 +22,8 @@ Definition wnode := (nat * (nat * (nat * nat)))%type.
 Definition wpipe := ((nat * nat) * (list nat * (list nat * list nat)))%type.
 Definition wcfg := (list wpipe * list (nat * list (nat * nat)))%type.
 Definition wdeliv := (wnode * list (wnode * list wnode))%type.
-Definition wobs := (bool * (nat * (list wnode * (list wnode * (list wnode * list wdeliv)))))%type.
+Definition wrouter := (wnode * list (nat * nat))%type.
+Definition wobs := (bool * (nat * (list wnode * (list wnode * (list wnode * (list wdeliv * list wrouter))))))%type.
 
 Definition node_of_w (w : wnode) : node :=
   let '(k, (a, (b, i))) := w in
@@ -65,8 +67,11 @@ Definition is_recv (n : node) : bool := match n with Recv _ _ => true | _ => fal
 Definition model_deliveries (g : graph) : list (node * list (node * list node)) :=
   map (fun r => (r, deliver g r)) (filter is_recv (g_nodes g)).
 
+Definition model_routers (g : graph) : list (node * list pid) :=
+  map (fun n => (n, router_pids g n)) (filter is_connector (g_nodes g)).
+
 Definition check_case (cs : wcfg * wobs) : bool :=
-  let '(wc, (vok, (cls, (detail, (wcreated, (wstarted, wdel)))))) := cs in
+  let '(wc, (vok, (cls, (detail, (wcreated, (wstarted, (wdel, wrt))))))) := cs in
   let c := cfg_of_w wc in
   let r := build c in
   let crt := map node_of_w wcreated in
@@ -77,9 +82,11 @@ Definition check_case (cs : wcfg * wobs) : bool :=
   | Ok g =>
       perm_eqb node_eqb (created g) crt &&
       perm_eqb node_eqb (created g) std &&
-      perm_eqb (fun a b => node_eqb (fst a) (fst b) && perm_eqb deliv_eqb (snd a) (snd b)) (model_deliveries g) del
+      perm_eqb (fun a b => node_eqb (fst a) (fst b) && perm_eqb deliv_eqb (snd a) (snd b)) (model_deliveries g) del &&
+      perm_eqb (fun a b => node_eqb (fst a) (fst b) && perm_eqb pid_eqb (snd a) (snd b)) (model_routers g)
+               (map (fun r => (node_of_w (fst r), snd r)) wrt)
   | Err e =>
-      is_nil crt && is_nil std && is_nil del &&
+      is_nil crt && is_nil std && is_nil del && is_nil wrt &&
       match e with
       | EUnsupported =>
           match detail with
@@ -95,4 +102,4 @@ Definition check_case (cs : wcfg * wobs) : bool :=
 Definition model_out (cs : wcfg * wobs) :=
   let c := cfg_of_w (fst cs) in
   (validate c, class_of (build c), possible_errors c,
-   match build c with Ok g => (created g, model_deliveries g) | Err _ => ([], []) end).
+   match build c with Ok g => (created g, model_deliveries g, model_routers g) | Err _ => ([], [], []) end).
